@@ -177,7 +177,7 @@ fn do_check(prop: &str, tier: Tier, seed: u64) -> i32 {
         "C14" => vec!["e1".into(), "e2:c14".into()],
         "C03" => vec!["e2:crash".into()],
         "C09" => vec!["e2:power".into()],
-        "C20" => vec!["e2:fault".into()],
+        "C20" => vec!["e2:fault".into(), "e5:c20".into()],
         "C04" => vec!["e3".into(), "e3:readfault".into()],
         _ => vec![eng.to_string()],
     };
